@@ -22,6 +22,29 @@ func envInt(name string, def int) int {
 
 var laneMenu = [][]int{{0}, {0}, {1}, {1}, {2}, {2}, {1, 2}, {2, 1}, {3}, {1, 3}}
 
+// lane-focused graphs: few dependencies, tasks spread over two lanes with several multi-lane tasks, so
+// that the healthy-lane exemption of abortLanes (and its loss once the other lane has failed too) is hit
+var laneMenu2 = [][]int{{1}, {2}, {1, 2}, {2, 1}, {1}, {2}, {1, 2}}
+
+func laneGraph(r *rand.Rand, n int) Graph {
+	g := Graph{N: n, NC: 1}
+	for i := 1; i <= n; i++ {
+		w := []int{}
+		for j := 1; j < i; j++ {
+			if r.Float64() < 0.08 {
+				w = append(w, j)
+			}
+		}
+		g.Waits = append(g.Waits, w)
+		g.Lanes = append(g.Lanes, append([]int(nil), laneMenu2[r.Intn(len(laneMenu2))]...))
+		g.Undo = append(g.Undo, r.Float64() < 0.9)
+		g.Chg = append(g.Chg, 1)
+		g.Kind = append(g.Kind, "neutral")
+		g.Snap = append(g.Snap, 0)
+	}
+	return g
+}
+
 func randGraph(r *rand.Rand, n, nc int) Graph {
 	g := Graph{N: n, NC: nc}
 	g.Chg = make([]int, n)
@@ -260,6 +283,10 @@ func TestVerifEngine(t *testing.T) {
 		for k := 0; k < cases; k++ {
 			g := randGraph(r, n, nc)
 			b := budget{fail: r.Intn(3), retry: r.Intn(3), wait: r.Intn(2), restart: r.Intn(2), abort: 0, stop: 0}
+			if nc == 1 && k%3 == 2 {
+				g = laneGraph(r, n)
+				b = budget{fail: 2, retry: r.Intn(2), wait: 0, restart: r.Intn(2)}
+			}
 			if r.Intn(5) == 0 {
 				b.abort = 1
 			}
